@@ -1,5 +1,6 @@
 import Neutrino.Props.C05
 import Neutrino.Props.C05Trans
+import Neutrino.Props.C05Stores
 open Neutrino.GetCFilter
 #print axioms C05_sound
 #print axioms C05_sound_counterexample
@@ -31,3 +32,8 @@ open Neutrino.GetCFilter
 #print axioms Neutrino.GetCFilter.C05_trans_no_query_above_tip
 #print axioms Neutrino.GetCFilter.C05_trans_lookup_error
 #print axioms Neutrino.GetCFilter.C05_trans_headerIndex
+#print axioms Neutrino.GetCFilter.C05_verification_headers_are_committed
+#print axioms Neutrino.GetCFilter.C05_stale_range_cache_counterexample
+#print axioms Neutrino.GetCFilter.C05_genesis_per_network
+#print axioms Neutrino.GetCFilter.C05_genesis_opened_last
+#print axioms Neutrino.GetCFilter.C05_shared_genesis_memo_counterexample
